@@ -111,6 +111,10 @@ fn engine_thin(args: &Args) -> i32 {
     let shapes = [
         "T8/T8", "Z/T8", "T32/T1", "T1/T32", "TB/TB", "T64/T8", "T8/T64", "Z16/T1",
     ];
+    if let Err(v) = thin::zst_element_cases(&mut st) {
+        emit_violation(&v, "thin", seed, "zero-sized elements", &[]);
+        nviol += 1;
+    }
     for k in first..first + n {
         let hseed = seed.wrapping_mul(0x1000_0000).wrapping_add(k);
         let shape = shapes[(k % shapes.len() as u64) as usize];
@@ -523,6 +527,9 @@ fn engine_faults(args: &Args) -> i32 {
             }
         }
         run(faults::nodrop_cases(&mut st), "nodrop".to_string(), &mut nviol);
+        for site in 0..2 {
+            run(faults::cow_drop_panics(site, &mut st), format!("cow+drop panic site={}", site), &mut nviol);
+        }
     }
     if (part == "all" || part == "alloc") && shadow::active() {
         for site in 0..faults::ALLOC_SITES {
